@@ -3,6 +3,7 @@ package main
 import (
 	"encoding/json"
 	"fmt"
+	"log/slog"
 	"runtime"
 	"sync"
 	"sync/atomic"
@@ -30,12 +31,50 @@ type queueCase struct {
 	Seed    uint64 `json:"seed,omitempty"`
 }
 
+// qmsg is the message with identity id: every field of it is set, and set to
+// something derived from id, so that a snapshot can be compared with what was added
+// as a whole value ("a snapshot returns exactly the ... messages").
+func qmsg(id int) handler.Message {
+	raw := []byte(nil)
+	if id%5 != 0 {
+		raw = []byte{0xd3, 0, byte(id), byte(id >> 8), byte(id >> 16)}
+	}
+	return handler.Message{MessageType: id, Timestamp: uint(id%604800000) + 1, SentAt: qStrings[id%7],
+		StartOfWeek: qStrings[7+id%3], ErrorMessage: qStrings[10+id%2], RawData: raw,
+		Readable: qReadable[id%3], LogLevel: []slog.Level{slog.LevelDebug, slog.LevelInfo}[id%2]}
+}
+
+var qStrings = []string{"sent-0", "sent-1", "sent-2", "sent-3", "sent-4", "sent-5", "sent-6", "week-0", "week-1", "week-2", "", "err"}
+var qReadable = []interface{}{"readable-0", "readable-1", 2}
+
+// sameMsg: is m exactly the value that was added under its identity?
+func sameMsg(m handler.Message) bool {
+	w := qmsg(m.MessageType)
+	return m.Timestamp == w.Timestamp && m.SentAt == w.SentAt && m.StartOfWeek == w.StartOfWeek && m.ErrorMessage == w.ErrorMessage &&
+		m.LogLevel == w.LogLevel && m.Readable == w.Readable && (m.RawData == nil) == (w.RawData == nil) && string(m.RawData) == string(w.RawData)
+}
+
+// ids maps a snapshot to message identities; a message that is not the value that
+// was added under its identity maps to a negative number (it then matches nothing).
 func ids(ms []handler.Message) []int {
 	out := make([]int, len(ms))
 	for i := range ms {
 		out[i] = ms[i].MessageType
+		if !sameMsg(ms[i]) {
+			out[i] = -1000000000 - ms[i].MessageType
+			alteredNote.Store(fmt.Sprintf("message %d came back as %+v, it was added as %+v", ms[i].MessageType, ms[i], qmsg(ms[i].MessageType)))
+		}
 	}
 	return out
+}
+
+var alteredNote atomic.Value
+
+func alteredText() string {
+	if v := alteredNote.Load(); v != nil {
+		return " (negative = the message returned is not the value that was added: " + v.(string) + ")"
+	}
+	return ""
 }
 
 // sizeUnderLock reads len(Items) under the queue's own read lock.
@@ -52,7 +91,7 @@ func execQueueSeq(c *child.Ctx, k queueCase, cj []byte) bool {
 	next := 1
 	for i := 0; i < len(k.Ops); i++ {
 		if k.Ops[i] == 'A' {
-			q.Add(handler.Message{MessageType: next})
+			q.Add(qmsg(next))
 			model = append(model, next)
 			if len(model) > k.Cap {
 				model = model[len(model)-k.Cap:]
@@ -65,7 +104,7 @@ func execQueueSeq(c *child.Ctx, k queueCase, cj []byte) bool {
 		} else {
 			got := ids(q.GetMessages())
 			if fmt.Sprint(got) != fmt.Sprint(model) && !(len(got) == 0 && len(model) == 0) {
-				c.Violate("snapshot-wrong", fmt.Sprintf("capacity %d after ops %q: snapshot %v, the last min(N, added) messages are %v", k.Cap, k.Ops[:i+1], got, model), cj)
+				c.Violate("snapshot-wrong", fmt.Sprintf("capacity %d after ops %q: snapshot %v, the last min(N, added) messages are %v%s", k.Cap, k.Ops[:i+1], got, model, alteredText()), cj)
 				return false
 			}
 		}
@@ -77,7 +116,7 @@ func execQueueSeq(c *child.Ctx, k queueCase, cj []byte) bool {
 func execQueueLong(c *child.Ctx, k queueCase, cj []byte) {
 	q := circularQueue.NewCircularQueue(k.Cap)
 	for i := 1; i <= k.Adds; i++ {
-		q.Add(handler.Message{MessageType: i})
+		q.Add(qmsg(i))
 		got := q.GetMessages()
 		want := k.Cap
 		if i < want {
@@ -85,12 +124,12 @@ func execQueueLong(c *child.Ctx, k queueCase, cj []byte) {
 		}
 		ok := len(got) == want
 		for j := 0; ok && j < len(got); j++ {
-			if got[j].MessageType != i-want+1+j {
+			if got[j].MessageType != i-want+1+j || !sameMsg(got[j]) {
 				ok = false
 			}
 		}
 		if !ok {
-			c.Violate("snapshot-wrong", fmt.Sprintf("capacity %d after %d additions: snapshot %v, expected the last %d in order", k.Cap, i, ids(got), want), cj)
+			c.Violate("snapshot-wrong", fmt.Sprintf("capacity %d after %d additions: snapshot %v, expected the last %d in order%s", k.Cap, i, ids(got), want, alteredText()), cj)
 			return
 		}
 		if i%1024 == 0 {
@@ -187,7 +226,7 @@ func execQueueConc(c *child.Ctx, k queueCase, cj []byte) {
 			for i := 0; i < k.OpsEach; i++ {
 				id := (a+1)*1000000 + i + 1 // unique: adder number and counter
 				t0 := atomic.AddInt64(&clock, 1)
-				q.Add(handler.Message{MessageType: id})
+				q.Add(qmsg(id))
 				t1 := atomic.AddInt64(&clock, 1)
 				if n := sizeUnderLock(q); n > k.Cap {
 					atomic.StoreInt64(&oversize, int64(n))
@@ -254,7 +293,7 @@ func execQueueConc(c *child.Ctx, k queueCase, cj []byte) {
 			}
 		}
 		_ = info
-		c.Violate("not-linearizable", fmt.Sprintf("capacity %d, %d adders, %d readers: no order of the operations consistent with real time explains the snapshots:%s", k.Cap, k.Adders, k.Readers, desc), cj)
+		c.Violate("not-linearizable", fmt.Sprintf("capacity %d, %d adders, %d readers: no order of the operations consistent with real time explains the snapshots:%s%s", k.Cap, k.Adders, k.Readers, desc, alteredText()), cj)
 	default:
 		c.Inconclusive("linearizability check timed out")
 	}
@@ -276,7 +315,7 @@ func execQueueStress(c *child.Ctx, k queueCase, cj []byte) {
 		go func(a int) {
 			defer wg.Done()
 			for i := 0; i < k.OpsEach; i++ {
-				q.Add(handler.Message{MessageType: (a+1)*10000000 + i + 1})
+				q.Add(qmsg((a+1)*10000000 + i + 1))
 				if i%64 == 0 {
 					tick()
 				}
@@ -298,6 +337,10 @@ func execQueueStress(c *child.Ctx, k queueCase, cj []byte) {
 				}
 				last := map[int]int{}
 				for _, m := range got {
+					if !sameMsg(m) {
+						bad.Store(fmt.Sprintf("a snapshot returned message %d as %+v, it was added as %+v", m.MessageType, m, qmsg(m.MessageType)))
+						return
+					}
 					ad := m.MessageType / 10000000
 					if prev, ok := last[ad]; ok && m.MessageType <= prev {
 						bad.Store(fmt.Sprintf("a snapshot is not in arrival order: %v", ids(got)))
